@@ -6,11 +6,15 @@
   heading's plain text for plain-word titles (the tag-stripping regex removes exactly the two
   heading tags); the list lines handed to the tokenizer are indented by 4·(level − base).
   The last step - those lines parse to a list nested by level - is a statement about the block
-  parser and is tied by the `toc` correspondence unit and explored on the implementation
-  (partial until the parser model carries the list lemmas; see DESIGN.md C19).
+  parser: `C19_toc_nested` (lemmas in Proofs/Outline.lean) proves it for every heading list that is an
+  outline (first heading shallowest, no level deepens by more than one) with plain titles (a letter
+  first, no newline), for every token list in which `List` comes before `Table` and `Paragraph`
+  (`C19_toc_config_current`: the lists the working tree installs).  Titles with markup or other first
+  characters and heading lists that skip a level stay with the `toc` unit and the exploration.
 -/
 import Mistletoe.Model.Toc
 import Mistletoe.Proofs.Html
+import Mistletoe.Proofs.Outline
 namespace Mistletoe.Props.C19
 open Mistletoe Mistletoe.Html Mistletoe.Toc Mistletoe.Escape
 
@@ -98,5 +102,44 @@ theorem C19_lines (hs : List (Nat × Str)) :
     rcases List.mem_cons.mp hh with rfl | hh
     · exact (foldl_min_le xs _).1
     · exact (foldl_min_le xs x.1).2 h hh
+
+/-! ### Nesting: the list lines parse to a list nested exactly as the outline -/
+
+open Mistletoe.Block in
+/-- **Nesting**: let `hs` be the collected headings, an outline (`isOutline`: not empty, no heading shallower than
+    the first, none more than one level deeper than its predecessor - `C19_outline_iff_levels`) with plain titles.
+    Then the block phase on the lines `TocRenderer.toc` builds (`Toc.tocLines hs`, see `C19_lines`) returns exactly
+    ONE `List`, not loose, whose items mirror the outline `toForest hs` (`expItems`): one item per heading of the
+    shallowest level, in order, each holding one `Paragraph` with the heading's text followed - when headings one
+    level deeper come next - by one nested `List` built the same way; line numbers are the headings' positions.
+    For every token list with `List` before `Table` and `Paragraph` (`ListCfg`) and enough gas. -/
+theorem C19_toc_nested (cfg : Block.Cfg) (tpre tpost : List BTok) (hc : ListCfg cfg tpre tpost) (hs : List (Nat × Str))
+    (ho : isOutline hs = true) (ht : ∀ h ∈ hs, plainTitle h.2 = true)
+    (gas : Nat) (hg : (cfg.types.length + 5) * hs.length + cfg.types.length + 4 ≤ gas) :
+    blockPhase cfg gas (Toc.tocLines hs) =
+      .ok ({ entries := [.list (expItems 0 1 (toForest hs)) 1 1], loose := false }, {}) :=
+  Mistletoe.Block.C19_toc_nested cfg tpre tpost hc hs ho ht gas hg
+
+open Mistletoe.Block in
+/-- the forest the list mirrors is the outline of the headings: flattening it in pre-order with levels gives the
+    heading list back, and `isOutline` is the elementary level condition -/
+theorem C19_outline_iff_levels (hs : List (Nat × Str)) :
+    (isOutline hs = outlineLevels hs) ∧
+    (isOutline hs = true → ∃ lv, hs.head?.map (·.1) = some lv ∧ hs = flatten lv (toForest hs)) :=
+  ⟨isOutline_eq_levels hs, fun h => (isOutline_sound hs h).2⟩
+
+open Mistletoe.Block in
+/-- **The hypothesis on the token list holds for the lists of the working tree** (regenerated from /repo): the HTML
+    renderer's, the TocRenderer's inside its context and after leaving it (where `toc` is usually read), the defaults. -/
+theorem C19_toc_config_current :
+    (∃ cfg, Config.html = some cfg ∧
+      ListCfg cfg.block [.htmlBlock, .blockCode, .heading, .quote, .codeFence, .thematicBreak] [.table, .footnote, .paragraph])
+    ∧ (∃ cfg, Config.cfgOf Gen.RenderMaps.tocBlockTokens Gen.RenderMaps.tocSpanTokens = some cfg ∧
+      ListCfg cfg.block [.htmlBlock, .blockCode, .heading, .quote, .codeFence, .thematicBreak] [.table, .footnote, .paragraph])
+    ∧ (∃ cfg, Config.cfgOf Gen.RenderMaps.tocBlockTokensAfterExit Gen.RenderMaps.tocSpanTokensAfterExit = some cfg ∧
+      ListCfg cfg.block [.blockCode, .heading, .quote, .codeFence, .thematicBreak] [.table, .footnote, .paragraph])
+    ∧ (∃ cfg, Config.default = some cfg ∧
+      ListCfg cfg.block [.blockCode, .heading, .quote, .codeFence, .thematicBreak] [.table, .footnote, .paragraph]) :=
+  Mistletoe.Block.C19_config_current_list
 
 end Mistletoe.Props.C19
